@@ -19,7 +19,7 @@ assignment cannot depend on the order.
 Modelled text alphabet: ASCII.  `str.strip/split` whitespace = ASCII whitespace of Python
 (`' ' \t \n \r \x0b \x0c \x1c-\x1f`), `upper()/lower()` = ASCII case maps, file iteration splits at
 `\n` and `\r` (universal newlines; an extra empty line is skipped like any blank line).
-Not modelled: `settings=None`, aliasing of a `settings` list shared between update entries,
+Not modelled: aliasing of a `settings` list shared between update entries,
 non-string dict values (the harness sends their `str()`).
 -/
 import Infretis.Model.Proto
@@ -238,7 +238,9 @@ def RS.toSt (rs : RS) : St := { arena := rs.arena, roots := rs.roots, ref := set
 def newNode (t : Str) (par : Option Nat) (s d : List Str) (lvl : Nat) : Node :=
   { title := t, parent := par, settings := s, data := d, children := [], level := lvl }
 
-/-- `_add_node`; the target is given as its reversed `split("->")` list. `d` = `list(data)`. -/
+/-- `_add_node`; the target is given as its reversed `split("->")` list.  `s` is the already normalised
+    `list(settings) if settings else []`, `d` the already formatted data (`_format_data(data)` for a dict,
+    the list itself otherwise); the recursion for a missing parent passes `[]` and `{}` → `[]`. -/
 def addNode : List Str → List Str → List Str → St → Except Err St
   | [], _, _, _ => .error .index                    -- unreachable: split never returns []
   | [t], s, d, st =>
@@ -265,16 +267,19 @@ def addNode : List Str → List Str → List Str → St → Except Err St
     `None`); `isList` says that `data` was a Python list of ready lines (entries `(line, none)`). -/
 structure Upd where
   target : Str
-  settings : List Str
+  /-- `value.get("settings", None)`: `none` = no "settings" entry in the update dict -/
+  settings : Option (List Str)
   replace : Bool
   data : List (Str × Option Str)
   isList : Bool
 deriving DecidableEq, Repr
 
-/-- `f"{data[key]}"` -/
-def valStr : Option Str → Str
-  | none => ['N', 'o', 'n', 'e']
-  | some v => v
+/-- one line of `_format_data` (also the lines of both merge loops): `None` gives the bare key.
+    For list data the entries are `(line, none)`, so this is the line itself. -/
+def fmtEntry (kv : Str × Option Str) : Str :=
+  match kv.2 with
+  | none => kv.1
+  | some x => kv.1 ++ [' '] ++ x
 
 /-- first loop of the merge: rewrite existing lines; returns new lines and `done` -/
 def mergeOld (data : List (Str × Option Str)) (isList : Bool) : List Str → Except Err (List Str × List Str)
@@ -289,7 +294,7 @@ def mergeOld (data : List (Str × Option Str)) (isList : Bool) : List Str → Ex
         else
           match mergeOld data isList t with
           | .error e => .error e
-          | .ok (ls, done) => .ok ((key ++ [' '] ++ valStr v) :: ls, key :: done)
+          | .ok (ls, done) => .ok (fmtEntry (key, v) :: ls, key :: done)
       | none =>
         match mergeOld data isList t with
         | .error e => .error e
@@ -304,7 +309,7 @@ def mergeNew (isList : Bool) (done : List Str) : List (Str × Option Str) → Ex
     else
       match mergeNew isList done t with
       | .error e => .error e
-      | .ok r => .ok ((match v with | none => k | some x => k ++ [' '] ++ x) :: r)
+      | .ok r => .ok (fmtEntry (k, v) :: r)
 
 def mergeData (u : Upd) (old : List Str) : Except Err (List Str) :=
   match mergeOld u.data u.isList old with
@@ -314,19 +319,27 @@ def mergeData (u : Upd) (old : List Str) : Except Err (List Str) :=
     | .error e => .error e
     | .ok app => .ok (ls ++ app)
 
+/-- the settings of a present target after `update_node`: untouched when no settings were requested
+    (`settings is None`), replaced in replace mode, else extended by the requested settings that are not
+    among the OLD settings (`[i for i in settings if i not in node.settings]`) -/
+def newSettings (req : Option (List Str)) (replace : Bool) (old : List Str) : List Str :=
+  match req with
+  | none => old
+  | some s => if replace then s else old ++ s.filter (fun x => decide (x ∉ old))
+
 def updateNode (u : Upd) (st : St) : Except Err St :=
   match dget u.target st.ref with
-  | none => addNode (splitArrow u.target).reverse u.settings (u.data.map (·.1)) st
+  | none => addNode (splitArrow u.target).reverse (u.settings.getD []) (u.data.map fmtEntry) st
   | some i =>
     match st.arena[i]? with
     | none => .error .attr                          -- unreachable for well-formed states
     | some n =>
       if u.replace then
-        .ok { st with arena := st.arena.set i { n with data := u.data.map (·.1), settings := u.settings } }
+        .ok { st with arena := st.arena.set i { n with data := u.data.map (·.1), settings := newSettings u.settings true n.settings } }
       else
         match mergeData u n.data with
         | .error e => .error e
-        | .ok nd => .ok { st with arena := st.arena.set i { n with data := nd, settings := n.settings ++ u.settings } }
+        | .ok nd => .ok { st with arena := st.arena.set i { n with data := nd, settings := newSettings u.settings false n.settings } }
 
 /-- `remove_node`.  The final loop of the code pops node objects (not keys) from `node_ref`,
     which removes nothing: the keys of the removed node's descendants stay. -/
@@ -483,7 +496,8 @@ def forestEquiv (a b : List Tree) : Prop := a.map Tree.cstr = b.map Tree.cstr
 /-! ### line-protocol handler
 
 Tokens: `str` = hex of the ASCII text or "-" (empty); `list<T>` = n T₁ … Tₙ.
-  upd   := str(target) ('0'|'1')(replace) ('0'|'1')(isList) list<str>(settings) n {str(key) val}ⁿ
+  upd   := str(target) ('0'|'1')(replace) ('0'|'1')(isList) sett n {str(key) val}ⁿ
+  sett  := 'n' (no "settings" entry) | 's' list<str>
   val   := 'N' | 'V'str
   cp2kread     str(text)                         → canonical forest | err:…
   cp2krefkeys  str(text)                         → sorted `hex(key)=canonical subtree` list | err:…
@@ -512,8 +526,12 @@ def parsePairs : Nat → List String → Option (List (Str × Option Str) × Lis
 
 open Infretis.Proto in
 def parseUpd : List String → Option (Upd × List String)
-  | tgt :: rep :: isl :: rest =>
-    match parseStr tgt, takeList parseStr rest with
+  | tgt :: rep :: isl :: sflag :: rest =>
+    let sett : Option (Option (List Str) × List String) :=
+      if sflag = "n" then some (none, rest)
+      else if sflag = "s" then (takeList parseStr rest).map (fun r => (some r.1, r.2))
+      else none
+    match parseStr tgt, sett with
     | some tgt, some (setts, nd :: rest1) =>
       match parseNat? nd with
       | some nd =>
